@@ -4,8 +4,11 @@ import (
 	"fmt"
 	"go/ast"
 	"go/constant"
+	"go/token"
 	"go/types"
+	"sort"
 	"strings"
+	"unicode"
 
 	"golang.org/x/tools/go/ssa"
 )
@@ -27,6 +30,7 @@ func checkC01(w *World, r *Report, tier string) propMeta {
 	n := c01R3(w, r)
 	c01R4(w, r)
 	c01R5(w, r)
+	c01R7(w, r)
 	return propMeta{
 		explanation: fmt.Sprintf("Six structural necessary conditions of 'no false negatives': (R1) one walker, one canonicaliser — pathWalker.walk is called only by indexing and by row verification, both read leaf text through leafTokenInput, neither reaches the reference enumerator, entry sets are written only by indexRow/addFieldToken/unionInto and every filter is built by buildSizedBloomFilter; (R2) the tokenisation siblings agree — both sides gate the fast path on isBasicWhitespaceLowerTokenizer of the same configured tokenizer, use the same forEachWord/appendFoldedWord pair, call the configured tokenizer on the same text otherwise, and use the same delimiter; (R3) prune ≥ row: for every small bloom tree (depth ≤ 2) and every truth assignment of its leaves the pruning verdict (evaluateBloomExpression with filters answering the assignment) is true whenever the row verdict (compileBloomExpression + evalMatcherNode) is, absent filters fail open, and the regex field guard is at least as permissive as the compiled regex matcher — %d cases by abstract interpretation; (R4) the regex guard is a field-existence test on the condition's own path; (R5) pruning points prune only on a negative filter verdict or a recorded error, and a filter section that is not in the chunk just read is an error, never a guess; (R6) = C18 (filters complete w.r.t. entry sets at every level) and C11.R1 (merge re-streams every row).", n),
 		notDecided:  "That the walker implements the documented path semantics; that forEachWord/appendFoldedWord equal strings.Fields(strings.ToLower(·)); chunk-window arithmetic in readChunkFrom/heldSection; bloom hashing; gjson's parse. These are value-level and belong to differential testing.",
@@ -390,6 +394,173 @@ func c01R3(w *World, r *Report) int {
 	return total
 }
 
+// c01R7: the fast tokenizer path splits words where strings.Fields does. The
+// word-boundary classifiers forEachWord branches on are either unicode.IsSpace
+// itself or comparison-only functions of one byte/rune; for the latter the set
+// of accepted code points is computed by abstract interpretation over the
+// interval partition induced by the function's own constants (between two
+// neighbouring constants every comparison has one truth value) and compared
+// with the Unicode White_Space property — the classification strings.Fields
+// uses — over the classifier's whole domain.
+func c01R7(w *World, r *Report) int {
+	const rule = "C01.R7"
+	r.rule(rule, "fast-path word boundaries = strings.Fields': every space classifier forEachWord branches on is unicode.IsSpace or a comparison-only function accepting exactly the White_Space code points of its domain", 2)
+	fn := fnOrUndecided(w, r, rule, "forEachWord")
+	if fn == nil {
+		return 0
+	}
+	segments := 0
+	seen := map[string]bool{}
+	eachInstr(fn, func(in ssa.Instruction) {
+		call, ok := in.(*ssa.Call)
+		if !ok {
+			return
+		}
+		bt, isB := call.Type().Underlying().(*types.Basic)
+		if !isB || bt.Kind() != types.Bool || len(call.Call.Args) != 1 {
+			return
+		}
+		branched := false
+		for _, ref := range *call.Referrers() {
+			if _, ok := ref.(*ssa.If); ok {
+				branched = true
+			}
+			if u, ok := ref.(*ssa.UnOp); ok {
+				for _, r2 := range *u.Referrers() {
+					if _, ok := r2.(*ssa.If); ok {
+						branched = true
+					}
+				}
+			}
+		}
+		if !branched {
+			return
+		}
+		name := w.calleeName(&call.Call)
+		if seen[name] {
+			return
+		}
+		seen[name] = true
+		if name == "unicode.IsSpace" {
+			r.ok(rule, "forEachWord:classifier:unicode.IsSpace", w.instrPos(call), "the classifier strings.Fields uses")
+			return
+		}
+		callee := w.staticCallee(&call.Call)
+		if callee == nil || !w.ours(callee) {
+			if strings.HasPrefix(name, "dyn:") {
+				return // the word callback
+			}
+			r.bad(rule, "forEachWord:classifier:"+name, w.instrPos(call), "word boundaries are decided by "+name+", which is neither unicode.IsSpace nor a package function whose accepted set can be computed")
+			return
+		}
+		// domain of the classifier
+		lo, hi := int64(0), int64(0x10FFFF)
+		if pt, ok := callee.Params[0].Type().Underlying().(*types.Basic); ok && (pt.Kind() == types.Uint8) {
+			hi = 0x7F // called for bytes below utf8.RuneSelf only
+			if !byteClassifierGuarded(w, call) {
+				hi = 0xFF
+			}
+		} else {
+			lo = 0x80 // called for decoded non-ASCII runes
+		}
+		// constants the classifier compares against
+		points := map[int64]bool{lo: true, hi: true}
+		var fns []*ssa.Function
+		for f := range w.reachableFuncs(false, callee) {
+			fns = append(fns, f)
+		}
+		for _, f := range fns {
+			eachInstr(f, func(x ssa.Instruction) {
+				for _, op := range x.Operands(nil) {
+					if c, ok := (*op).(*ssa.Const); ok && c.Value != nil && c.Value.Kind() == constant.Int {
+						if v, ok := constant.Int64Val(c.Value); ok {
+							for _, p := range []int64{v - 1, v, v + 1} {
+								if p >= lo && p <= hi {
+									points[p] = true
+								}
+							}
+						}
+					}
+				}
+			})
+		}
+		var ps []int64
+		for p := range points {
+			ps = append(ps, p)
+		}
+		sort.Slice(ps, func(i, j int) bool { return ps[i] < ps[j] })
+		bad, aborted := "", ""
+		for i, p := range ps {
+			// segment [p, next-1] (a critical point and the open interval after it share the representative's verdict
+			// only when no constant lies inside; by construction none does)
+			end := p
+			if i+1 < len(ps) {
+				end = ps[i+1] - 1
+			}
+			for _, seg := range [][2]int64{{p, p}, {p + 1, end}} {
+				if seg[0] > seg[1] {
+					continue
+				}
+				segments++
+				in := &interp{w: w, or: pointOracle{rep: seg[0]}}
+				res, ab := in.run(callee, []AVal{aSymbol(1)})
+				if ab != "" {
+					aborted = ab
+					break
+				}
+				got, isBool := res[0].isBool()
+				if !isBool {
+					aborted = "non-constant verdict"
+					break
+				}
+				for cp := seg[0]; cp <= seg[1]; cp++ {
+					if unicode.IsSpace(rune(cp)) != got {
+						bad = fmt.Sprintf("U+%04X: %s says %v, White_Space says %v", cp, name, got, !got)
+						break
+					}
+				}
+			}
+			if bad != "" || aborted != "" {
+				break
+			}
+		}
+		switch {
+		case aborted != "":
+			r.undecided(rule, "forEachWord:classifier:"+name, w.instrPos(call), name+" is not a comparison-only function of its argument, so its accepted set cannot be computed: "+aborted)
+		case bad != "":
+			r.bad(rule, "forEachWord:classifier:"+name, w.instrPos(call), "the fast tokenizer path and strings.Fields disagree on a word boundary ("+bad+"): values using that separator are indexed and verified as one token, so Token/FieldToken queries for the individual words find nothing")
+		default:
+			r.ok(rule, "forEachWord:classifier:"+name, w.instrPos(call), fmt.Sprintf("accepts exactly the White_Space code points of [U+%04X, U+%04X]", lo, hi))
+		}
+	})
+	if !seen["unicode.IsSpace"] && len(seen) < 2 {
+		r.undecided(rule, "forEachWord:classifiers", w.pos(fn.Pos()), "space classifiers not found")
+	}
+	return segments
+}
+
+// byteClassifierGuarded: the call is dominated by the true edge of `c < utf8.RuneSelf`.
+func byteClassifierGuarded(w *World, call *ssa.Call) bool {
+	arg := call.Call.Args[0]
+	if refs := arg.Referrers(); refs != nil {
+		for _, ref := range *refs {
+			b, ok := ref.(*ssa.BinOp)
+			if !ok || b.Op != token.LSS {
+				continue
+			}
+			if n, ok := constInt(b.Y); !ok || n != 0x80 {
+				continue
+			}
+			for _, r2 := range *b.Referrers() {
+				if ifi, ok := r2.(*ssa.If); ok && ifi.Block().Succs[0].Dominates(call.Block()) {
+					return true
+				}
+			}
+		}
+	}
+	return false
+}
+
 func c01R4(w *World, r *Report) {
 	const rule = "C01.R4"
 	r.rule(rule, "the regex guard is a field-existence test on the condition's own path: Type = BloomField, Field = expression.Condition.Field", 1)
@@ -532,6 +703,7 @@ func checkC03(w *World, r *Report, tier string) propMeta {
 	c03R2(w, r)
 	c03R3(w, r)
 	c03R4(w, r)
+	c03R5(w, r)
 	return propMeta{
 		explanation: "Independence of returned rows: (R1) materializeRow parses a copying string(rowBytes) conversion of its argument, and (C02.R1) every delivered row is materializeRow of the scanned bytes; (R2) package unsafe is referenced only inside unsafeString, whose callers are exactly indexRow and matchRowBytes, and matchRowBytes/match return only a bool; (R3) typestate on pooled scan buffers: after putScanBuffer(x) (or a direct call of a release closure) no instruction reachable in the function uses x; in processDataBlock the row-data release is deferred before the batch flush is deferred (so the flush runs first) and is never called directly; (R4) readPooledBlockRowData is called only from processDataBlock (the merge path uses the allocating reader) and parseFilterSection decodes filters with ReadFrom into fresh objects.",
 		notDecided:  "The first sentence of the property — JSON round-trip equality (gjson vs encoding/json on numbers and escapes) — is value-level and not decided; aliasing through third-party decoders.",
@@ -556,6 +728,36 @@ func c03R1(w *World, r *Report) {
 	if n == 0 {
 		r.undecided(rule, "materializeRow:parse", w.pos(fn.Pos()), "gjson.Parse call not found")
 	}
+}
+
+// c03R5: nothing a delivered row is built from is shared: the materialisation
+// region reads no package-level variable of a reference type (a map, slice,
+// pointer or interface kept at package level would be the same object in
+// every returned row of every query).
+func c03R5(w *World, r *Report) {
+	const rule = "C03.R5"
+	r.rule(rule, "no shared state in materialised rows: the functions reachable from materializeRow reference no package-level variable of a reference type", 1)
+	fn := fnOrUndecided(w, r, rule, "materializeRow")
+	if fn == nil {
+		return
+	}
+	region := w.reachableFuncs(false, fn)
+	bad := ""
+	for f := range region {
+		eachInstr(f, func(in ssa.Instruction) {
+			for _, op := range in.Operands(nil) {
+				g, ok := (*op).(*ssa.Global)
+				if !ok || g.Pkg != w.SSAPkg {
+					continue
+				}
+				switch g.Type().Underlying().(*types.Pointer).Elem().Underlying().(type) {
+				case *types.Map, *types.Slice, *types.Pointer, *types.Interface, *types.Chan:
+					bad = "package-level " + g.Name() + " referenced in " + w.name(f) + " at " + w.instrPos(in)
+				}
+			}
+		})
+	}
+	r.check(bad == "", rule, "materializeRow:no-package-level-references", w.pos(fn.Pos()), fmt.Sprintf("%d function(s) in the materialisation region, none reads a package-level reference", len(region)), bad+": every returned row that receives it shares one mutable object with all other rows and later queries")
 }
 
 func c03R2(w *World, r *Report) {
@@ -630,6 +832,14 @@ func c03R3(w *World, r *Report) {
 				if a, ok := u.X.(*ssa.Alloc); ok {
 					return "cell:" + a.Name()
 				}
+				if fv, ok := u.X.(*ssa.FreeVar); ok {
+					// the same cell seen from a closure of the allocating function
+					if b := freeVarBinding(fv); b != nil {
+						if a, ok := b.(*ssa.Alloc); ok {
+							return "cell:" + a.Name()
+						}
+					}
+				}
 				return ""
 			}
 			return v.Name()
@@ -666,6 +876,41 @@ func c03R3(w *World, r *Report) {
 						continue
 					}
 					bad = n + " used at " + w.instrPos(in) + " after it was returned to the pool"
+				}
+			}
+		})
+		// deferred closures of this function that release a buffer the body may already have released
+		eachInstr(fn, func(in ssa.Instruction) {
+			d, ok := in.(*ssa.Defer)
+			if !ok {
+				return
+			}
+			callee := w.staticCallee(&d.Call)
+			if callee == nil || callee.Parent() != fn {
+				return
+			}
+			for _, p := range w.callSitesIn(callee, "putScanBuffer") {
+				n := name(callOf(p).Args[0])
+				if n == "" {
+					continue
+				}
+				for _, ret := range fl.Returns() {
+					errs := retVals(w, ret, len(ret.Results)-1)
+					if len(ret.Results) > 0 && isErrorType(ret.Results[len(ret.Results)-1].Type()) && allNil(errs) {
+						continue // success exit: an on-error cleanup does not run
+					}
+					var rd ssa.Instruction
+					for _, x := range ret.Block().Instrs {
+						if _, isRD := x.(*ssa.RunDefers); isRD {
+							rd = x
+						}
+					}
+					if rd == nil {
+						continue
+					}
+					if f := fl.Before(rd); f != nil && f.May("released:"+n) {
+						bad = n + " is put back by the deferred cleanup at " + w.instrPos(p) + " on an exit (" + w.instrPos(ret) + ") where the body may already have put it back: the same buffer enters the pool twice and two scans can be handed one backing array"
+					}
 				}
 			}
 		})
